@@ -52,6 +52,8 @@ def lex_text(rs, cfg, rng, vary=True):
     c99 = cfg.backend == 'c99'
     if cfg.backend == 'r':
         opts.append('reentrant')
+    if cfg.backend == 'cxx':
+        opts.append('c++')
     if c99:
         opts.append('emit="c99"')
         opts.append('noyypanic')
@@ -80,6 +82,13 @@ def lex_text(rs, cfg, rng, vary=True):
         opts.append('batch')
     prologue = '%{\nstatic void fv_buffer_op(int op, long a, long b FV_PROTO_LAST);\n%}'
     act = lambda i: 'ACT(%d);' % i
+    if cfg.backend == 'cxx':
+        opts.append('yyclass="FvLexer"')
+        prologue = ('%{\nstatic void fv_buffer_op(int op, long a, long b);\n'
+                    'class FvLexer : public yyFlexLexer {\npublic:\n  virtual int yylex();\n'
+                    '  virtual int yywrap() { fv_log_int("wrap", -1); return 1; }\nprotected:\n'
+                    '  virtual int LexerInput(char *buf, int max_size) { return fv_read_cxx(buf, (size_t) max_size); }\n'
+                    '  virtual void LexerError(const char *msg) { fv_fatal(msg); }\n};\n%}')
     if c99:
         prologue = ('%{\nstatic void fv_buffer_op(int op, long a, long b FV_PROTO_LAST);\n'
                     'static void yypanic(const char *msg, yyscan_t yyscanner);\n'
@@ -110,7 +119,8 @@ def lex_text(rs, cfg, rng, vary=True):
             t += 'FV_OPS_REST(op_, a_, b_) } }'
             return t
     text = rs.to_lex(rng, action=act, prologue=prologue,
-                     epilogue='#include "fvmain.c"\n', vary=vary, extra_options=opts)
+                     epilogue='#include "fvmain_cxx.cc"\n' if cfg.backend == 'cxx' else '#include "fvmain.c"\n',
+                     vary=vary, extra_options=opts)
     # user <<EOF>> actions
     if cfg.eof_scs:
         eof = ''
@@ -124,7 +134,7 @@ def lex_text(rs, cfg, rng, vary=True):
 def build_scanner(flex, flexsrc, workdir, name, rs, cfg, lex_seed=0, flex_timeout=10):
     rng = random.Random(lex_seed)
     lf = os.path.join(workdir, name + '.l')
-    cf = os.path.join(workdir, name + '.c')
+    cf = os.path.join(workdir, name + ('.cc' if cfg.backend == 'cxx' else '.c'))
     exe = os.path.join(workdir, name + '.exe')
     text = lex_text(rs, cfg, rng)
     open(lf, 'w', encoding='latin1').write(text)
@@ -158,7 +168,9 @@ def build_scanner(flex, flexsrc, workdir, name, rs, cfg, lex_seed=0, flex_timeou
     fullish = any(('f' in o or 'F' in o) for o in cfg.topt)
     b['flags']['interactive'] = int(cfg.interactive is True or (cfg.interactive is None and not fullish))
     b['var_rules'] = flexrun.var_rules_of(t)
-    cc = ['gcc', '-w', '-O0', '-g', '-D_GNU_SOURCE', '-I', HARNESS, '-I', flexsrc, cf, '-o', exe]
+    cc = ['g++' if cfg.backend == 'cxx' else 'gcc', '-w', '-O0', '-g', '-D_GNU_SOURCE', '-I', HARNESS, '-I', flexsrc, cf, '-o', exe]
+    if cfg.backend == 'cxx':
+        cc[1:1] = ['-fpermissive']
     if cfg.sanitize:
         cc[1:1] = ['-fsanitize=address,undefined', '-fno-sanitize-recover=all']
     p = subprocess.run(cc, stdout=subprocess.PIPE, stderr=subprocess.STDOUT, text=True)
@@ -188,7 +200,7 @@ def case_text(rs, build, cfg, srcs, main, acts=None, wraps=None, sched=None, buf
         # routine for when each action starts (meaningful with 1-byte reads from a single source)
         lines.append('logreads 1')
         lines.append('interactive %d' % (1 if build['flags'].get('interactive') else 0))
-    if cfg.array:
+    if cfg.array and cfg.backend != 'cxx':        # (%array is overridden, with a warning, for C++ scanners)
         lines.append('yylmax %d' % (cfg.yylmax or 8192))
     if any(r.get('chain') for r in rs.rules):
         # a rule with a '|' action runs the action of the next rule that has one
